@@ -814,7 +814,9 @@ func (ctx *context) Run() (res *Result) {
 
 	defer func() {
 		if r := recover(); r != nil {
-			ctx.res.runErr = fmt.Errorf("%s", r)
+			if ctx.res.runErr == nil {
+				ctx.res.runErr = fmt.Errorf("%s", r)
+			}
 			res = ctx.res
 		}
 		ctx.saveDebug()
@@ -828,6 +830,11 @@ func (ctx *context) Run() (res *Result) {
 		instr.fn(ctx)
 		ctx.addDebug(ctx.pfx + "----\n")
 		_ = x
+		if ctx.res.runErr != nil {
+			// An instruction reported a failure (e.g. an error from the data
+			// tree): stop here so that it is what the caller sees.
+			break
+		}
 	}
 
 	return ctx.res
